@@ -1,7 +1,14 @@
 package main
 
 import (
+	"io/ioutil"
+	"os"
+	"path/filepath"
+	"strings"
+
 	"fmt"
+	"github.com/frankkopp/FrankyGo/internal/openingbook"
+	. "github.com/frankkopp/FrankyGo/internal/types"
 	"strconv"
 	"time"
 
@@ -364,3 +371,54 @@ func dbgRootVals(args []string) int {
 	return 0
 }
 func init() { register("dbg-rootvals", dbgRootVals) }
+
+// dbg-book <file> : builds a Simple-format book line by line and reports which line adds a position an independent replay does not
+func dbgBook(args []string) int {
+	data, _ := ioutil.ReadFile(args[0])
+	lines := strings.Split(strings.TrimRight(string(data), "\n"), "\n")
+	dir, _ := ioutil.TempDir("", "dbgbook")
+	defer os.RemoveAll(dir)
+	for i, l := range lines {
+		ioutil.WriteFile(filepath.Join(dir, "one.txt"), []byte(l+"\n"), 0644)
+		b, err, hung := buildBook(dir, "one.txt", openingbook.Simple, false)
+		if err != nil || hung {
+			fmt.Fprintln(realStdout, "line", i, "error", err, hung)
+			continue
+		}
+		// independent replay: greedy tokenisation against the legal moves
+		pos := position.NewPosition()
+		keys := map[uint64]bool{uint64(pos.ZobristKey()): true}
+		w := NewWalker(NewRng(1))
+		t := strings.ReplaceAll(l, " ", "")
+		for j := 0; j+4 <= len(t); {
+			var mv Move
+			n := 0
+			for _, ln := range []int{5, 4} {
+				if j+ln > len(t) {
+					continue
+				}
+				for _, x := range w.legalMoves(pos) {
+					if strings.EqualFold(x.StringUci(), t[j:j+ln]) {
+						mv, n = x, ln
+					}
+				}
+				if n > 0 {
+					break
+				}
+			}
+			if n == 0 {
+				break
+			}
+			pos.DoMove(mv)
+			keys[uint64(pos.ZobristKey())] = true
+			j += n
+		}
+		mark := ""
+		if len(keys) != len(b.VerifEntries()) {
+			mark = "  <<<<<< independent replay: " + strconv.Itoa(len(keys))
+		}
+		fmt.Fprintf(realStdout, "line %d: %d entries%s : %s\n", i, len(b.VerifEntries()), mark, l)
+	}
+	return 0
+}
+func init() { register("dbg-book", dbgBook) }
